@@ -49,8 +49,8 @@ func (ec *ErrorContainer) AddErrorList(el []error) {
 		return
 	}
 	if ec.errors_ == nil {
-		ec.errors_ = el
-		return
+		// never adopt the caller's slice: it may hold nils and the caller may reuse it
+		ec.errors_ = make([]error, 0, len(el))
 	}
 	for i := range el {
 		if el[i] != nil {
